@@ -535,7 +535,20 @@ pub fn drive(args: &Args) -> i32 {
         if is_sparse {
             l.extra_fat = 0;
             let ndifat = 1 + ((run - (n + big + huge)) % 3) as usize;
-            l.free_sectors = (109 + 127 * (ndifat - 1)) * 128 + rng.gen_range(1..300);
+            // just past the point where the ndifat-th DIFAT sector becomes necessary (FAT sector count
+            // 109 + 127 * (ndifat - 1) + 1 exactly: 110, 237, 364), every fourth one further beyond
+            let k = run - (n + big + huge);
+            l.free_sectors = (109 + 127 * (ndifat - 1)) * 128 + if k % 4 == 3 { rng.gen_range(20..300) } else { rng.gen_range(1..20) };
+            if k % 4 != 3 {
+                // exactly the smallest FAT that needs the ndifat-th DIFAT sector: 110, 237, 364 FAT sectors
+                let target = 109 + 127 * (ndifat - 1) + 1;
+                l.free_sectors = (target - 1) * 128;
+                for _ in 0..4000 {
+                    let nf = cfb::plan(&paths, &lens, &l).n_fat;
+                    if nf == target { break; }
+                    if nf > target { l.free_sectors -= 1; } else { l.free_sectors += 1; }
+                }
+            }
         }
         let p = cfb::plan(&paths, &lens, &l);
         let mut ids: Vec<u32> = (0..p.total_sectors as u32).collect();
